@@ -383,3 +383,67 @@ claim(
     'abstract shape/leaf-text domain over AST with one-level interprocedural '
     'summaries, filter facts imported into mutations, regex AST inspection',
     'DESIGN.md §4 C15')
+
+
+# ---- rules added during the build rounds (see DESIGN.md 8.4)
+addendum('C01', 'the renderer contract of C07 (R6) and the token-preserving '
+         're-duplication of C13 (R7) are re-checked here, because the output '
+         'file is the adopted list after reduplicate, rendered by the output '
+         'renderer.')
+addendum('C02', 'mutator instances are never shared between passes '
+         '(get_mutators folded twice); reduplicate itself yields distinct '
+         'identities (C13.R2-R4); the information tables the filters consult '
+         'are reset and rebuilt before every sweep (R6).')
+addendum('C03', 'simultaneous formal/actual substitution (R6 = C11.R6), '
+         'identity preservation of untouched subtrees for identity-based '
+         'cycle guards (R7 = C11.R3/R4), quote escaping applied once (R8).')
+addendum('C04', 'variable subscripts on s-expressions need an index bound; '
+         'the per-mutator handler does not leave the loop over the mutators; '
+         'str.index needs a membership test; what the main process pickles '
+         'for workers is a materialised list (R7).')
+addendum('C05', 'private candidate file (R6 = C01.R4); the result of a '
+         'ddmin granularity round is what the next round and the caller '
+         'continue with (R7, reaching definitions).')
+addendum('C06', 'the process never signals itself (os.kill(os.getpid()), '
+         'os.abort): the TemporaryDirectory finalizer must run.')
+addendum('C07', 'the dispatching writers are evaluated to symbolic output '
+         'traces for every valuation of the formatting options '
+         '(sa/writer_trace.py): for each expression, in order, one rendering '
+         'by the selected emitter, white-space separators only, no '
+         'post-processing, no recursive str(); the candidate file is opened '
+         'afresh and closed (R7).')
+addendum('C08', 'the scanner is analysed in a normal form (canonical names; '
+         'index scans, str.find / str.index regions, find-and-jump and '
+         'slice-delimited lexemes rewritten to character loops, bounds '
+         'judged over linear forms, R6); character classes are the cells of '
+         'the partition induced by the scanner\'s own character sets; every '
+         'cell is explored under nine look-ahead characters; the scanner '
+         'sees the file\'s characters untranslated (R5).')
+addendum('C09', 'tests other than == / in between two parameters become '
+         'atoms of their own (a regular-expression search is not the '
+         'documented substring test); value choices "(a or b) in c" are '
+         'lifted; the compared streams are the binary pipes decoded once '
+         '(R7).')
+addendum('C10', 'spawn-to-wait paths are enumerated with correlated flag '
+         'tests; limit_resources is judged on its effective '
+         'setrlimit/prlimit applications (appliers inlined); default limits '
+         'depend on no foreign option; match validation may live in a '
+         'helper.')
+addendum('C11', 'prefix scan judged over the valuations of (has_ident, '
+         'ident in prefix set); identities unique across processes (R7 = '
+         'C12.R4).')
+addendum('C12', 'pushed children are never filtered; roles (cursor, tag '
+         'byte, work list, popped node) are derived from the code, tag '
+         'constants folded through module constants and ord().')
+addendum('C14', 'two calls of get_mutators never hand out the same '
+         'instance; automatic detection shows every top-level node to '
+         'is_relevant (no pre-filter).')
+addendum('C15', 'flow-sensitive treatment of "x = None" defaults; the symbol '
+         'tables consulted by freshness tests are rebuilt per sweep (R7).')
+addendum('C16', 'FP field widths by origin resolution through helpers and '
+         'guards; name-pattern branches of the sort table are checked '
+         'against every SMT-LIB operator they admit; a handler that falls '
+         'through after a failed sort inference must reset the sort.')
+addendum('C18', 'R4 is armed (the fresh-variable flow is a listed known '
+         'finding with a witness); the information tables are never rebuilt '
+         'inside a loop over pool results (R5).')
